@@ -205,6 +205,32 @@ fn permutations(n: usize) -> Vec<Vec<usize>> {
     out
 }
 
+/// all permutations for n <= 4; for longer groups every rotation, the reversal and every
+/// transposition (a generating family of the symmetric group, O(n^2) instead of n!)
+fn perm_family(n: usize) -> Vec<Vec<usize>> {
+    if n <= 4 {
+        return permutations(n);
+    }
+    let id: Vec<usize> = (0..n).collect();
+    let mut out = vec![];
+    for r in 1..n {
+        let mut p = id.clone();
+        p.rotate_left(r);
+        out.push(p);
+    }
+    let mut rev = id.clone();
+    rev.reverse();
+    out.push(rev);
+    for i in 0..n {
+        for j in (i + 1)..n {
+            let mut p = id.clone();
+            p.swap(i, j);
+            out.push(p);
+        }
+    }
+    out
+}
+
 fn render(tokens: &[Vec<u8>], upper_us: bool, out: &mut Vec<u8>) {
     out.clear();
     for (i, t) in tokens.iter().enumerate() {
@@ -241,14 +267,12 @@ pub fn structured(sk: &Skeleton, l: &mut Local, coll: &Collector) {
             Group::Variants(s, e) | Group::Attrs(s, e) => {
                 let what: &'static str = if matches!(g, Group::Variants(..)) { "variant order/repetition" } else { "attribute order/repetition" };
                 let n = e - s;
-                if n <= 4 {
-                    for p in permutations(n) {
-                        let mut t = sk.tokens.clone();
-                        for (k, &src) in p.iter().enumerate() {
-                            t[s + k] = sk.tokens[s + src].clone();
-                        }
-                        emit(&t, what, l);
+                for p in perm_family(n) {
+                    let mut t = sk.tokens.clone();
+                    for (k, &src) in p.iter().enumerate() {
+                        t[s + k] = sk.tokens[s + src].clone();
                     }
+                    emit(&t, what, l);
                 }
                 for i in *s..*e {
                     // duplicate element i at every position of the group
@@ -266,11 +290,11 @@ pub fn structured(sk: &Skeleton, l: &mut Local, coll: &Collector) {
                 let mut uniq = keys.clone();
                 uniq.sort();
                 uniq.dedup();
-                if uniq.len() != keys.len() || rs.len() > 4 {
+                if uniq.len() != keys.len() {
                     continue;
                 }
                 let (gs, ge) = (rs[0].0, rs[rs.len() - 1].1);
-                for p in permutations(rs.len()) {
+                for p in perm_family(rs.len()) {
                     let mut t: Vec<Vec<u8>> = sk.tokens[..gs].to_vec();
                     for &src in &p {
                         t.extend_from_slice(&sk.tokens[rs[src].0..rs[src].1]);
@@ -338,14 +362,15 @@ pub fn run_c09(ctx: &Ctx) -> Report {
         all.merge(&st.local);
     }
     // (b) structured permutations / duplications on the skeletons
-    let skels = skeletons(true, !ctx.quick());
+    let mut skels = skeletons(true, !ctx.quick());
+    skels.extend(long_skeletons());
     let st = par_range(ctx, "b.structured", skels.len() as u64, 16, &|idx, l| structured(&skels[idx as usize], l, &coll));
     total_pairs += st.local.counters[0];
     nontrivial += st.local.nontrivial;
     {
         let e = rep.extra.entry("engines".to_string()).or_insert_with(|| json!({}));
         e["b.structured"] = json!({"skeletons": skels.len(), "pairs": st.local.counters[0], "pairs_where_transformed_parses": st.local.counters[1],
-            "transformations": "every permutation (<=4) and every single duplication of the variant group and of the attribute group, every permutation of keyword groups and of tfield groups with distinct keys, both orders of -u-/-t-, each also rendered in UPPER case with '_'",
+            "transformations": "every permutation (groups of <= 4; for the long skeletons' groups of 5..8 every rotation, the reversal and every transposition) and every single duplication of the variant group and of the attribute group, the same permutation family of keyword groups and of tfield groups with distinct keys, both orders of -u-/-t-, each also rendered in UPPER case with '_'",
             "wall_s": (st.wall * 100.0).round() / 100.0});
     }
     all.merge(&st.local);
